@@ -296,19 +296,29 @@ def r9_value_word_decision(chk, prog, rule='R9'):
             raise AnalysisBroken('operator++: the branch that hands the rest of the word on as value was not found')
         ifs, cond = target
         for nv, rem, pos in itertools.product((0, 1), (0, 1), (0, 3)):
-            it = Interp(f, {'this.mNextIsValue': nv, 'this.mRemainingArgumentStringAsValue': rem,
-                            'this.mArgCharPos': pos})
-            try:
-                v = bool(it.ev(cond))
-            except (NeedAtom, Unsupported) as e:
-                raise AnalysisBroken('operator++: guard of the value branch not interpretable: %s' % getattr(e, 'key', e))
+            # the decision must not depend on anything else: the character the rest starts with ('-5' is a value
+            # like any other when it is glued to its key) or the '--' state (mAcceptDashedValue)
+            got = set()
+            for ch, dashed in itertools.product((45, 120), (0, 1)):
+                def other(itp, key, ch=ch):
+                    return ch if key.startswith('this.mpArgV[') else None
+                it = Interp(f, {'this.mNextIsValue': nv, 'this.mRemainingArgumentStringAsValue': rem,
+                                'this.mArgCharPos': pos, 'this.mAcceptDashedValue': dashed, 'this.mArgIndex': 1},
+                            callbacks={'<atom>': other})
+                try:
+                    got.add((bool(it.ev(cond)), ch, dashed))
+                except (NeedAtom, Unsupported) as e:
+                    raise AnalysisBroken('operator++: guard of the value branch not interpretable: %s' %
+                                         getattr(e, 'key', e))
             want = bool(nv or (rem and pos > 0))
             n += 1
-            chk.check(v == want, rule, f.name, "the rest of the word is handed on as value: %s [pending '--key=' "
+            wrong = sorted((c_, d_) for v_, c_, d_ in got if v_ != want)
+            chk.check(not wrong, rule, f.name, "the rest of the word is handed on as value: %s [pending '--key=' "
                       "value: %s, value requested by the argument: %s, %s]" % (
                           'yes' if want else 'no (normal analysis of the word)', bool(nv), bool(rem),
                           'inside a word' if pos else 'at a word start'), f.loc(ifs),
-                      'operator++ decides %s' % ('yes' if v else 'no'))
+                      'operator++ decides %s when %s' % ('no' if want else 'yes', '; '.join(
+                          "the rest starts with '%s'%s" % (chr(c_), " after '--'" if d_ else '') for c_, d_ in wrong)))
     chk.require(n >= 8, 'value-word decisions evaluated: %d' % n)
     return n
 
